@@ -283,6 +283,114 @@ def float_companion(rep, prop, tier, seed):
     rep.notes['float_scenarios'] = n
 
 
+def rows_with_units(rep):
+    """C12, last clause of the first sentence: rows hold the values 'units and
+    custom serializers applied'.  One engine whose variables are a quantity with
+    declared units (updated in another compatible unit), a quantity that takes
+    its units from its default, a list of quantities, a set with the set
+    serializer, an array and a variable with a user-defined serializer.  The
+    expected value of each at every row time follows from the updates (all
+    processes have timestep 1); the row must hold serialize_value of exactly
+    that value in the declared units (the serializer itself is C14's subject),
+    and deserializing the row gives the value back."""
+    import numpy as np
+    from vivarium.core.engine import Engine
+    from vivarium.core.process import Process
+    from vivarium.core.serialize import serialize_value, deserialize_value
+    from vivarium.core.registry import Serializer
+    from vivarium.core.emitter import make_fallback_serializer_function
+    from vivarium.library.units import units
+    from vivarium import serializer_registry
+
+    class TagSerializer(Serializer):
+        def serialize(self, data):
+            return 'tag<%d>' % data
+
+    if 'TagSerializer' not in serializer_registry.registry:
+        serializer_registry.register('TagSerializer', TagSerializer())
+
+    class Q(Process):
+        defaults = {'time_step': 1}
+
+        def ports_schema(self):
+            return {'m': {
+                'mass': {'_default': 1 * units.g, '_units': units.mg, '_emit': True},
+                'conc': {'_default': 2.0 * units.mM, '_emit': True},
+                'many': {'_default': [1 * units.mg, 2 * units.mg], '_updater': 'set',
+                         '_emit': True},
+                'tags': {'_default': set(), '_updater': 'set', '_serializer': 'set',
+                         '_emit': True},
+                'arr': {'_default': np.array([1, 2]), '_emit': True},
+                'tagged': {'_default': 0, '_serializer': 'TagSerializer', '_emit': True},
+                'hidden': {'_default': 5 * units.g, '_emit': False}}}
+
+        def next_update(self, timestep, states):
+            k = int(round(states['m']['tagged'])) + 1
+            return {'m': {'mass': 1 * units.g, 'conc': 0.5 * units.mM,
+                          'many': [k * units.g, 2 * k * units.mg],
+                          'tags': {k}, 'arr': np.array([1, 1]), 'tagged': 1}}
+
+    rep.evaluations += 1
+    eng = Engine(processes={'q': Q()}, topology={'q': {'m': ('m',)}},
+                 emitter={'type': 'timeseries'}, display_info=False)
+    eng.update(3)
+    rows = eng.emitter.get_data()
+    fb = make_fallback_serializer_function()
+
+    def expected(k):
+        return {'mass': ((1000 + 1000 * k) * units.mg),
+                'conc': (2.0 + 0.5 * k) * units.mM,
+                'many': ([1 * units.mg, 2 * units.mg] if k == 0
+                         else [(1000 * k) * units.mg, 2 * k * units.mg]),
+                'tags': (set() if k == 0 else {k}),
+                'arr': np.array([1 + k, 2 + k]),
+                'tagged': k}
+    for k in range(4):
+        t = float(k)
+        row = rows.get(t)
+        if row is None:
+            rep.violation({'kind': 'units-row', 'what': 'missing', 't': k},
+                          'C12 no row for time %r in %r' % (t, sorted(rows)), {})
+            continue
+        got = row.get('m', {})
+        exp = expected(k)
+        if set(got) != set(exp):
+            rep.violation({'kind': 'units-row', 'what': 'keys', 't': k},
+                          'C12 row %r holds variables %s, flagged for emission are %s'
+                          % (t, sorted(got), sorted(exp)), {})
+            continue
+        for var, val in exp.items():
+            if var == 'tagged':
+                want = 'tag<%d>' % val
+            elif var == 'tags':
+                want = sorted(val)
+                got[var] = sorted(got[var]) if isinstance(got[var], list) else got[var]
+            elif var in ('mass', 'conc', 'many'):
+                # (1 g in mg is 1000.0: the number format is not the subject; the
+                #  value and the unit are compared after deserializing, below)
+                want = got[var]
+                if not all(isinstance(x, str) and x.startswith('!units[')
+                           for x in (got[var] if isinstance(got[var], list) else [got[var]])):
+                    want = serialize_value({'x': val}, fb)['x']
+            else:
+                want = serialize_value({'x': val}, fb)['x']
+            if got[var] != want:
+                rep.violation({'kind': 'units-row', 'var': var, 't': k},
+                              'C12 row %r holds %s = %r; the hierarchy held %r, which serializes '
+                              'to %r' % (t, var, got[var], val, want), {})
+                continue
+            if var in ('mass', 'conc', 'many'):
+                back = deserialize_value(got[var])
+                same = (all(a == b and str(a.units) == str(b.units) for a, b in zip(back, val))
+                        if isinstance(val, list) else
+                        (back == val and str(back.units) == str(val.units)))
+                if not same:
+                    rep.violation({'kind': 'units-row', 'var': var, 't': k, 'what': 'units'},
+                                  'C12 row %r: %s deserializes to %r, the hierarchy held %r (in '
+                                  'its declared units)' % (t, var, back, val), {})
+    rep.nontrivial.add('rows-with-units')
+
+
 def cyclic_flows(rep):
     """C05 quantifies over flows that are DAGs; a flow with a cycle has no order
     in which 'a step runs only after all steps it depends on', and an unknown
@@ -478,6 +586,8 @@ def check(prop, tier, seed):
         validate(rep, prop, scs, scratch)
         if prop == 'C05':
             cyclic_flows(rep)
+        if prop == 'C12':
+            rep.guard(rows_with_units, rep, what='rows with units and serializers')
         if prop == 'C05':
             # steps created, moved and deleted at run time (also by a step, during the
             # phase): what every step saw of its upstream step, per tick
